@@ -10,3 +10,4 @@ import RenetVerif.Lemmas.SrcEquiv.Acks
 import RenetVerif.Lemmas.SrcEquiv.TokenTable
 import RenetVerif.Lemmas.SrcEquiv.NcSerialize
 import RenetVerif.Lemmas.SrcEquiv.NcToken
+import RenetVerif.Lemmas.SrcEquiv.NcSequence
